@@ -1623,6 +1623,102 @@ def _guard_continue(fn):
     return changed
 
 
+def _while_counter(fn):
+    """k = A; while k < N: BODY; k += 1      ->     for k in range(A, N): BODY
+    when A is an integer literal, N a length (len(x), x.size, x.shape[i], an integer literal) whose operands BODY does not touch, BODY
+    neither stores k nor `continue`s this loop, and k is not read after the loop."""
+    changed = False
+
+    def is_length(e):
+        if isinstance(e, ast.Constant) and type(e.value) is int:
+            return True
+        if isinstance(e, ast.Call) and isinstance(e.func, ast.Name) and e.func.id == 'len' and len(e.args) == 1 and _pure_expr(e.args[0]):
+            return True
+        if isinstance(e, ast.Attribute) and e.attr == 'size' and _pure_expr(e.value):
+            return True
+        if isinstance(e, ast.Subscript) and isinstance(e.value, ast.Attribute) and e.value.attr == 'shape' and isinstance(e.slice, ast.Constant) \
+                and _pure_expr(e.value.value):
+            return True
+        return False
+
+    def own_continue(body):
+        for st in body:
+            if isinstance(st, ast.Continue):
+                return True
+            if isinstance(st, (ast.For, ast.While, ast.AsyncFor, ast.FunctionDef, ast.AsyncFunctionDef, ast.ClassDef)):
+                if isinstance(st, (ast.For, ast.While, ast.AsyncFor)) and own_continue(st.orelse):
+                    return True
+                continue
+            for fld in ('body', 'orelse', 'finalbody'):
+                if own_continue(getattr(st, fld, []) or []):
+                    return True
+            for h in getattr(st, 'handlers', []) or []:
+                if own_continue(h.body):
+                    return True
+        return False
+    for owner in ast.walk(fn):
+        for fld in ('body', 'orelse', 'finalbody'):
+            body = getattr(owner, fld, None)
+            if not (isinstance(body, list) and body and isinstance(body[0], ast.stmt)) or isinstance(owner, ast.Lambda):
+                continue
+            for i, st in enumerate(body):
+                if not (isinstance(st, ast.While) and not st.orelse and len(st.body) >= 2):
+                    continue
+                t = st.test
+                if not (isinstance(t, ast.Compare) and len(t.ops) == 1 and isinstance(t.left, ast.Name)):
+                    continue
+                if isinstance(t.ops[0], ast.Lt):
+                    k, bound = t.left.id, t.comparators[0]
+                else:
+                    continue
+                last = st.body[-1]
+                if not (isinstance(last, ast.AugAssign) and isinstance(last.op, ast.Add) and isinstance(last.target, ast.Name) and last.target.id == k
+                        and isinstance(last.value, ast.Constant) and last.value.value == 1 and type(last.value.value) is int):
+                    continue
+                # the initialisation: the nearest earlier statement of the block that mentions k
+                j = i - 1
+                while j >= 0 and not any(isinstance(x, ast.Name) and x.id == k for x in ast.walk(body[j])):
+                    j -= 1
+                if j < 0:
+                    continue
+                init = body[j]
+                if not (isinstance(init, ast.Assign) and len(init.targets) == 1 and isinstance(init.targets[0], ast.Name) and init.targets[0].id == k
+                        and isinstance(init.value, ast.Constant) and type(init.value.value) is int):
+                    continue
+                if not is_length(bound):
+                    continue
+                inner = st.body[:-1]
+                if any(isinstance(x, ast.Name) and x.id == k and isinstance(x.ctx, (ast.Store, ast.Del)) for b_ in inner for x in ast.walk(b_)):
+                    continue
+                if own_continue(inner):
+                    continue
+                holder = ast.Module(body=inner, type_ignores=[])
+                mut, stores = _mutated_names(holder)
+                free = {x.id for x in ast.walk(bound) if isinstance(x, ast.Name)}
+                if free & (mut | set(stores)):
+                    continue
+                between = body[j + 1:i]
+                if any(isinstance(x, ast.Name) and x.id in free and isinstance(x.ctx, ast.Store) for b_ in between for x in ast.walk(b_)):
+                    pass
+                total = sum(1 for x in ast.walk(fn) if isinstance(x, ast.Name) and x.id == k and isinstance(x.ctx, ast.Load))
+                inside = sum(1 for b_ in inner for x in ast.walk(b_) if isinstance(x, ast.Name) and x.id == k and isinstance(x.ctx, ast.Load))
+                if total != inside + 1:            # + the read in the loop test
+                    continue
+                nstores = sum(1 for x in ast.walk(fn) if isinstance(x, ast.Name) and x.id == k and isinstance(x.ctx, (ast.Store, ast.Del)))
+                if nstores != 2:
+                    continue
+                args = [bound] if init.value.value == 0 else [init.value, bound]
+                loop = ast.For(target=ast.Name(id=k, ctx=ast.Store()), iter=ast.Call(func=ast.Name(id='range', ctx=ast.Load()), args=args, keywords=[]),
+                               body=inner, orelse=[], type_comment=None)
+                ast.copy_location(loop, st)
+                ast.fix_missing_locations(loop)
+                body[i] = loop
+                del body[j]
+                changed = True
+                break
+    return changed
+
+
 def _list_accumulation(fn):
     """x = [] (or list(), or a list literal); x.append(e) immediately after   ->   x = [..., e]   (e must not read x)."""
     changed = False
@@ -1733,7 +1829,7 @@ def _tail_return_dedup(fn):
                 continue
             for i, st in enumerate(body[:-1]):
                 if isinstance(st, ast.If) and not st.orelse and len(st.body) >= 1 and isinstance(st.body[-1], ast.Return) and st.body[-1].value is not None \
-                        and ast.dump(st.body[-1].value) == ast.dump(last.value) and _total_expr(last.value):
+                        and ast.dump(st.body[-1].value) == ast.dump(last.value):
                     st.body = st.body[:-1] or [ast.Pass()]
                     st.orelse = body[i + 1:-1] or []
                     del body[i + 1:-1]
@@ -1745,8 +1841,12 @@ def _tail_return_dedup(fn):
 
 
 def _return_ifexp(fn):
-    """if c: return a else: return b   /   if c: return a; return b      ->   return a if c else b   (values, not bare returns)."""
+    """if c: return a else: return b   /   if c: return a; return b      ->   return a if c else b   (a bare return reads as None when
+    the other arm returns a value)."""
     changed = False
+
+    def val(r):
+        return r.value if r.value is not None else ast.Constant(value=None)
     for owner in ast.walk(fn):
         for fld in ('body', 'orelse', 'finalbody'):
             body = getattr(owner, fld, None)
@@ -1755,16 +1855,17 @@ def _return_ifexp(fn):
             i = 0
             while i < len(body):
                 st = body[i]
-                if isinstance(st, ast.If) and len(st.body) == 1 and isinstance(st.body[0], ast.Return) and st.body[0].value is not None:
+                if isinstance(st, ast.If) and len(st.body) == 1 and isinstance(st.body[0], ast.Return):
                     other = None
-                    if len(st.orelse) == 1 and isinstance(st.orelse[0], ast.Return) and st.orelse[0].value is not None:
-                        other = st.orelse[0].value
+                    if len(st.orelse) == 1 and isinstance(st.orelse[0], ast.Return):
+                        other = st.orelse[0]
                         consumed = 0
-                    elif not st.orelse and i + 1 < len(body) and isinstance(body[i + 1], ast.Return) and body[i + 1].value is not None:
-                        other = body[i + 1].value
+                    elif not st.orelse and i + 1 < len(body) and isinstance(body[i + 1], ast.Return):
+                        other = body[i + 1]
                         consumed = 1
-                    if other is not None:
-                        body[i] = ast.copy_location(ast.Return(value=ast.IfExp(test=st.test, body=st.body[0].value, orelse=other)), st)
+                    if other is not None and (other.value is not None or st.body[0].value is not None):
+                        body[i] = ast.copy_location(ast.Return(value=ast.IfExp(test=st.test, body=val(st.body[0]), orelse=val(other))), st)
+                        ast.fix_missing_locations(body[i])
                         if consumed:
                             del body[i + 1]
                         changed = True
@@ -1860,6 +1961,7 @@ def normal_form(fn, callee_info=None, consts=None):
         _default_override(c)
         _ifexp_assign(c)
         _guard_continue(c)
+        _while_counter(c)
         _loop_to_comprehension(c)
         _unpack_to_subscripts(c)
         _dead_constant_stores(c)
